@@ -239,6 +239,48 @@ Section Facts.
     unfold svc_register. cbn [negb]. destruct (register kec cfg reg (Some amt) s w) as [t1 r].
     cbn [snd]. intros ->. reflexivity.
   Qed.
+  (* ---- one object, many operations: every operation sees only its own answers ---------------- *)
+  Lemma session_nth qs n :
+    nth_error (session kec cfg reg qs) n = option_map (run_request kec cfg reg) (nth_error qs n).
+  Proof.
+    unfold session. revert n. induction qs as [|q r IH]; intros [|n]; cbn; auto.
+  Qed.
+
+  Lemma session_check_stateless qs n addr a1 a2 :
+    nth_error qs n = Some (QCheck addr a1 a2) ->
+    exists t b,
+      nth_error (session kec cfg reg qs) n = Some (t, ACheck b) /\
+      t = fst (check kec cfg reg addr a1 a2) /\ b = snd (check kec cfg reg addr a1 a2) /\
+      hd_error t = Some (ECall min_req) /\
+      (b = true <-> exists m s, reads_ok a1 a2 m s /\ m <= s).
+  Proof.
+    intros H. rewrite session_nth, H. cbn [option_map run_request].
+    destruct (check kec cfg reg addr a1 a2) as [t b] eqn:E. exists t, b.
+    assert (Et : t = fst (check kec cfg reg addr a1 a2)) by (rewrite E; reflexivity).
+    assert (Eb : b = snd (check kec cfg reg addr a1 a2)) by (rewrite E; reflexivity).
+    repeat split; auto.
+    - rewrite Et, check_trace. reflexivity.
+    - rewrite Eb. apply check_spec.
+    - rewrite Eb. apply check_spec.
+  Qed.
+
+  (* two histories that give the same answers to the n-th check get the same n-th outcome,
+     whatever happened before or after *)
+  Lemma session_check_independent qs qs' n addr a1 a2 :
+    nth_error qs n = Some (QCheck addr a1 a2) -> nth_error qs' n = Some (QCheck addr a1 a2) ->
+    nth_error (session kec cfg reg qs) n = nth_error (session kec cfg reg qs') n.
+  Proof. intros H H'. rewrite !session_nth, H, H'. reflexivity. Qed.
+
+  Lemma session_getters_stateless qs n :
+    (forall a, nth_error qs n = Some (QGetMin a) ->
+       nth_error (session kec cfg reg qs) n =
+       Some ([ECall min_req], ANum (match a with CErr => None | CBytes b => decode_uint256 b end))) /\
+    (forall addr a, nth_error qs n = Some (QGetStake addr a) ->
+       nth_error (session kec cfg reg qs) n =
+       Some ([ECall (stake_req addr)], ANum (match a with CErr => None | CBytes b => decode_uint256 b end))).
+  Proof.
+    split; [intros a H|intros addr a H]; rewrite session_nth, H; reflexivity.
+  Qed.
 End Facts.
 
 (* --- non-vacuity ------------------------------------------------------------------------------- *)
@@ -377,12 +419,12 @@ Lemma want_send_eq c amt :
   want_send c amt = send_req (kec_of (abi c)) (cfg_of (kind c)) (reg c) amt.
 Proof. intros H. unfold want_send, send_req. rewrite H. reflexivity. Qed.
 
-Lemma checker_accepts_model c : agrees c = true -> violation c = None.
+Lemma checker_accepts_model1 c : agrees1 c = true -> violation1 c = None.
 Proof.
-  unfold agrees, violation.
+  unfold agrees1, violation1.
   destruct (cfg_spec (kind c)) as (Hreg & Hmin & Hstake).
   set (kec := kec_of (abi c)) in *. set (cfg := cfg_of (kind c)) in *.
-  destruct (op c) as [addr a1 a2|a|addr a|amt s w|owner valid parsed s w a|args|tys d]; try reflexivity.
+  destruct (op c) as [addr a1 a2|a|addr a|amt s w|owner valid parsed s w a|args|tys d|steps]; try reflexivity.
   - (* the check *)
     destruct (check kec cfg (reg c) addr a1 a2) as [t b] eqn:E.
     rewrite !andb_true_iff. intros [[[Ht Hb] _] _].
@@ -390,7 +432,7 @@ Proof.
     assert (Et : t = fst (check kec cfg (reg c) addr a1 a2)) by (rewrite E; reflexivity).
     assert (Eb : b = snd (check kec cfg (reg c) addr a1 a2)) by (rewrite E; reflexivity).
     rewrite check_trace in Et.
-    destruct (res c) as [o| | | | |]; try discriminate. apply eqb_prop in Hb. subst o.
+    destruct (res c) as [o| | | | | |]; try discriminate. apply eqb_prop in Hb. subst o.
     unfold value_read, want_read. fold kec. rewrite <- Hmin, <- Hstake. rewrite <- Ht, Et.
     cbn [find_call]. rewrite txreq_eqb_refl. cbn [nth_answer nth].
     unfold check, get_min, get_stake in Eb.
@@ -410,7 +452,7 @@ Proof.
     { unfold sends_ok. rewrite <- Ht, (want_send_eq c amt Hreg). fold kec cfg.
       unfold register in E. destruct s; injection E as <- <-; cbn [sends flat_map app]; apply txreq_eqb_refl. }
     rewrite Hs. cbn [negb].
-    destruct (res c) as [|?|o|? ?| |]; try discriminate.
+    destruct (res c) as [|?|o|? ?| | |]; try discriminate.
     destruct o as [|p]; [|reflexivity].
     assert (Hok : snd (register kec cfg (reg c) amt s w) = Ok tt).
     { rewrite E. cbn [snd]. destruct r as [[]|?|]; cbn in Hr; try discriminate; reflexivity. }
@@ -423,11 +465,11 @@ Proof.
     unfold svc_register in E.
     destruct valid; cbn [negb] in E.
     2:{ injection E as <- <-. unfold sends_ok. rewrite <- Ht. cbn.
-        destruct (res c) as [| | |code am| |]; try discriminate.
+        destruct (res c) as [| | |code am| | |]; try discriminate.
         destruct code as [|p]; [discriminate|reflexivity]. }
     destruct parsed as [z|].
     2:{ injection E as <- <-. unfold sends_ok. rewrite <- Ht. cbn.
-        destruct (res c) as [| | |code am| |]; try discriminate.
+        destruct (res c) as [| | |code am| | |]; try discriminate.
         destruct code as [|p]; [discriminate|reflexivity]. }
     destruct (register kec cfg (reg c) (Some z) s w) as [t1 r1] eqn:E1.
     assert (Hs1 : sends t1 = [want_send c (Some z)] /\ calls t1 = []).
@@ -443,7 +485,7 @@ Proof.
         destruct a as [|b]; [|destruct (decode_uint256 b)]; injection E as <- <-;
           unfold sends; rewrite ?flat_map_app; fold (sends t1); rewrite Hs1; cbn [flat_map app]; apply txreq_eqb_refl. }
       rewrite Hs. cbn [negb].
-      destruct (res c) as [| | |code am| |]; try reflexivity.
+      destruct (res c) as [| | |code am| | |]; try reflexivity.
       destruct code as [|p]; [|reflexivity].
       unfold mined_ok. rewrite <- Ht. unfold get_stake in E.
       destruct a as [|b]; [|destruct (decode_uint256 b)]; injection E as <- <-; rewrite Hf;
@@ -453,27 +495,43 @@ Proof.
       assert (Hs : sends_ok c (Some (Some z)) = true).
       { unfold sends_ok. rewrite <- Ht, Hs1. apply txreq_eqb_refl. }
       rewrite Hs. cbn [negb].
-      destruct (res c) as [| | |code am| |]; try discriminate.
+      destruct (res c) as [| | |code am| | |]; try discriminate.
       destruct code as [|p]; [discriminate|reflexivity].
     + injection E as <- <-.
       assert (Hs : sends_ok c (Some (Some z)) = true).
       { unfold sends_ok. rewrite <- Ht, Hs1. apply txreq_eqb_refl. }
       rewrite Hs. cbn [negb].
-      destruct (res c) as [| | |code am| |]; try discriminate.
+      destruct (res c) as [| | |code am| | |]; try discriminate.
       destruct code as [|p]; [discriminate|reflexivity].
+Qed.
+
+Lemma checker_accepts_model c : agrees c = true -> violation c = None.
+Proof.
+  unfold agrees, violation. destruct (op c) as [| | | | | | |steps]; try apply checker_accepts_model1.
+  induction steps as [|st r IH]; [reflexivity|]. cbn [forallb first_violation].
+  rewrite andb_true_iff. intros [H1 H2]. rewrite (checker_accepts_model1 _ H1). apply IH. exact H2.
+Qed.
+
+(* a session passes only if each of its steps passes on its own *)
+Lemma checker_reflects_session c steps st :
+  op c = OpSession steps -> violation c = None -> In st steps -> violation1 (sub c st) = None.
+Proof.
+  unfold violation. intros -> H. induction steps as [|s0 r IH]; intros Hin; [contradiction|].
+  cbn [first_violation] in H. destruct (violation1 (sub c s0)) eqn:E0; [discriminate|].
+  destruct Hin as [<-|Hin]; [exact E0|]. apply IH; assumption.
 Qed.
 
 (* --- and what it accepts is what the property says ------------------------------------------------ *)
 (* a yes passes only if the request for the minimum and the request for the account's amount
    were both made, both were answered with bytes that decode, and minimum <= amount *)
 Lemma checker_reflects_check c addr a1 a2 :
-  op c = OpCheck addr a1 a2 -> violation c = None -> res c = ObsBool true ->
+  op c = OpCheck addr a1 a2 -> violation1 c = None -> res c = ObsBool true ->
   exists m s,
     value_read c [a1; a2] (want_read c (spec_min (kind c)) []) = Some m /\
     value_read c [a1; a2] (want_read c (spec_stake (kind c)) [VAddress addr]) = Some s /\
     m <= s.
 Proof.
-  unfold violation. intros Hop H Hres. rewrite Hop, Hres in H.
+  unfold violation1. intros Hop H Hres. rewrite Hop, Hres in H.
   destruct (value_read c [a1; a2] (want_read c (spec_min (kind c)) [])) as [m|]; [|discriminate].
   destruct (value_read c [a1; a2] (want_read c (spec_stake (kind c)) [VAddress addr])) as [s|]; [|discriminate].
   destruct (N.leb_spec m s) as [Hle|]; [|discriminate]. exists m, s. auto.
@@ -483,13 +541,13 @@ Qed.
    success comes with: a Send that returned a hash, a wait for that hash after the Send, and a
    receipt with status 1 *)
 Lemma checker_reflects_register c amt s w :
-  op c = OpRegister amt s w -> violation c = None ->
+  op c = OpRegister amt s w -> violation1 c = None ->
   (sends (trace c) = [] \/ sends (trace c) = [want_send c amt]) /\
   (res c = ObsReg 0 ->
    exists h, s = SHash h /\ w = WReceipt 1 /\ sends (trace c) = [want_send c amt] /\
              waited_after_send (trace c) h false = true).
 Proof.
-  unfold violation. intros -> H.
+  unfold violation1. intros -> H.
   destruct (sends_ok c (Some amt)) eqn:Hs; cbn [negb] in H; [|discriminate].
   assert (Hsends : sends (trace c) = [] \/ sends (trace c) = [want_send c amt]).
   { unfold sends_ok in Hs. destruct (sends (trace c)) as [|r [|r' l]]; auto; [|discriminate].
@@ -501,3 +559,12 @@ Proof.
   exists h. repeat split; auto.
   destruct Hsends as [Hn|Hn]; [|exact Hn]. rewrite Hn in H2. discriminate.
 Qed.
+
+Example session_example :
+  map snd (session toy_kec provider_registry (repeat 7 20)
+     [QCheck (repeat 9 20) (CBytes (be 32 100)) (CBytes (be 32 150));
+      QCheck (repeat 9 20) (CBytes (be 32 200)) (CBytes (be 32 150));
+      QCheck (repeat 9 20) CErr (CBytes (be 32 150));
+      QCheck (repeat 9 20) (CBytes (be 32 100)) (CBytes (be 32 150))]) =
+  [ACheck true; ACheck false; ACheck false; ACheck true].
+Proof. vm_compute. reflexivity. Qed.
